@@ -321,6 +321,8 @@ class Analysis:
                 self.names.setdefault(int(m.group(1)), k)
         self.param_types = dict(body.params)
         self.havoc = {}                 # loop header -> set(keys)
+        self.loop_entry = {}            # loop header -> State on the entry edge (before widening)
+        self.loop_back = {}             # loop header -> [State on each back edge]
         self.live_keys = {}             # switched-on term -> set of live outcome keys (for join completeness)
         self.guards = []
         self.calls = []
@@ -340,6 +342,8 @@ class Analysis:
             self.calls = []
             self.stores_log = []
             self.block_in = {}
+            self.loop_entry = {}
+            self.loop_back = {}
             self.uid = 0
             changed = self._run_once()
             if not changed:
@@ -395,6 +399,8 @@ class Analysis:
                 st = self._merge(ins, bb)
             if bb in cfg.loops:
                 hv = self.havoc.get(bb, ())
+                self.loop_entry[bb] = st.copy()          # state on the entry edge(s), before widening (rules check recurrences)
+                self.loop_back[bb] = []
                 for k in hv:
                     st.store.set(k, ('loopvar', bb, k))
             self.block_in[bb] = st
@@ -407,6 +413,7 @@ class Analysis:
             for tgt, st2 in outs:
                 if (bb, tgt) in be:
                     # compare with header entry state -> widen
+                    self.loop_back.setdefault(tgt, []).append(st2)
                     hin = self.block_in.get(tgt)
                     if hin is not None:
                         hv = self.havoc.setdefault(tgt, set())
